@@ -8,7 +8,7 @@
    [run (init c t0) ops] is the list of their results, [final (init c t0) ops] the
    state afterwards; [capacity s now] is the code's maxFlight() evaluated at [now]. *)
 From Coq Require Import List ZArith QArith Bool.
-From GZ Require Import Lib.RollingWindow Lib.RollingWindowSpec C02.Model C02.Conc C02.Proofs C02.ProofsConc C02.ProofsConcHot C02.ProofsConcSat.
+From GZ Require Import Lib.RollingWindow Lib.RollingWindowSpec C02.Model C02.Conc C02.Proofs C02.ProofsConc C02.ProofsConcHot C02.ProofsConcSat C02.Wrap C02.ProofsWrap.
 Import ListNotations.
 Open Scope Z_scope.
 
@@ -179,6 +179,53 @@ Proof. exact min_rt_of_char. Qed.
 Theorem capacity_at_least_one : forall s now, (1 <= capacity s now)%Q.
 Proof. exact max_flight_ge_1. Qed.
 
+(* ------------------------------------------------------------------ *)
+(* 7. The callers named in the anchors (C02/Wrap.v): rest SheddingHandler and zrpc
+      UnarySheddingInterceptor.  "Each admitted request counts as in flight from Allow until
+      its promise is resolved once":
+      for every verdict of Allow and everything the wrapped handler can do (write no code,
+      several codes, a body, panic; return any error), a let-in request runs the handler
+      once and resolves its promise exactly once; a shed request resolves nothing. *)
+Theorem wrapper_resolves_exactly_once : forall v,
+  (forall o,
+     (v = VGrant -> wr_runs (rest_wrap v o) = 1 /\ wr_pass (rest_wrap v o) + wr_fail (rest_wrap v o) = 1) /\
+     (v = VShed -> wr_pass (rest_wrap v o) + wr_fail (rest_wrap v o) = 0)) /\
+  (forall o,
+     (v = VGrant -> wr_runs (rpc_wrap v o) = 1 /\ wr_pass (rpc_wrap v o) + wr_fail (rpc_wrap v o) = 1) /\
+     (v = VShed -> wr_pass (rpc_wrap v o) + wr_fail (rpc_wrap v o) = 0)).
+Proof. intros v. split; intros o; [apply rest_once|apply rpc_once]. Qed.
+
+(*    A shed request does not run the handler and gets the overload answer
+      (503 / codes.ResourceExhausted). *)
+Theorem shed_request_not_run :
+  (forall o, wr_runs (rest_wrap VShed o) = 0 /\ wr_visible (rest_wrap VShed o) = VisStatus overloadStatus /\
+             wr_panics (rest_wrap VShed o) = false) /\
+  (forall o, wr_runs (rpc_wrap VShed o) = 0 /\ wr_visible (rpc_wrap VShed o) = VisExhausted /\
+             wr_panics (rpc_wrap VShed o) = false).
+Proof. split; [exact rest_shed|exact rpc_shed]. Qed.
+
+(*    Fail exactly for the overload-class outcomes (last status written = 503;
+      errors.Is(err, context.DeadlineExceeded)), Pass otherwise; the zRPC handler's
+      result is returned unchanged. *)
+Theorem wrapper_fail_iff_overload_outcome :
+  (forall o, wr_fail (rest_wrap VGrant o) = 1 <-> last_code (ro_codes o) = overloadStatus) /\
+  (forall o, wr_fail (rpc_wrap VGrant o) = 1 <-> (o = GDeadline \/ o = GWrappedDeadline)) /\
+  (forall o, wr_visible (rpc_wrap VGrant o) = VisRpc o).
+Proof. split; [exact rest_fail_iff|split; [exact rpc_fail_iff|exact rpc_transparent]]. Qed.
+
+(*    Against the shedder model: any sequence of wrapped requests (arrival time, CPU
+      readings, completion time, resolution chosen by the wrapper) leaves nothing in flight. *)
+Theorem wrapped_requests_leave_nothing_in_flight : forall c t0 qs,
+  cenabled c = true -> Forall (fun q => q_res q <> ResNone) qs ->
+  flying (serve_all (init c t0) qs) = 0.
+Proof. intros c t0 qs H Hq. rewrite (serve_all_flying qs (init c t0) H Hq). reflexivity. Qed.
+
+(* 8. ShedderGroup: two GetShedder calls return the same shedder iff their keys are equal
+      (instances named by the index of the first call with that key). *)
+Theorem group_one_shedder_per_key : forall keys k1 k2, In k1 keys -> In k2 keys ->
+  (first_index k1 keys 0 = first_index k2 keys 0 <-> k1 = k2).
+Proof. exact group_same_iff. Qed.
+
 Print Assumptions shed_only_if_hot_and_loaded.
 Print Assumptions shed_when_saturated.
 Print Assumptions flying_conservation_wf.
@@ -187,6 +234,8 @@ Print Assumptions capacity_def.
 Print Assumptions shed_only_if_hot_and_loaded_interleaved.
 Print Assumptions shed_when_saturated_interleaved.
 Print Assumptions idle_never_sheds_interleaved.
+Print Assumptions wrapper_resolves_exactly_once.
+Print Assumptions wrapped_requests_leave_nothing_in_flight.
 
 (* ------------------------------------------------------------------ *)
 (* The hypotheses are satisfiable by concrete, non-trivial histories.    *)
@@ -290,3 +339,19 @@ Example ex_conc_saturated :
   | None => False
   end.
 Proof. vm_compute. repeat split; try reflexivity; discriminate. Qed.
+
+(* wrappers: a handler that writes 500 then 503 and panics is resolved once, with Fail, and the
+   panic propagates; one that writes nothing is resolved with Pass *)
+Example ex_wrap_rest :
+  rest_wrap VGrant (mkRO [500; 503] true) = mkWR 1 0 1 (VisStatus 500) true /\
+  rest_wrap VGrant (mkRO [] false) = mkWR 1 1 0 (VisStatus 200) false /\
+  rpc_wrap VGrant GPanic = mkWR 1 1 0 (VisRpc GPanic) true /\
+  rpc_wrap VGrant GWrappedDeadline = mkWR 1 0 1 (VisRpc GWrappedDeadline) false.
+Proof. repeat split. Qed.
+
+(* wrapped requests against the shedder: 3 requests, the third one is shed while the first two... *)
+Example ex_serve :
+  let qs := [mkReq B 0 0 (B + 5 * ms) ResPass; mkReq (B + 1) 950 950 (B + 9 * ms) ResFail;
+             mkReq (B + 2) 0 0 (B + 7 * ms) ResPass] in
+  flying (serve_all (init cfg1 B) qs) = 0 /\ nextId (serve_all (init cfg1 B) qs) = 6.
+Proof. vm_compute. split; reflexivity. Qed.
